@@ -118,7 +118,7 @@ EmittedTokensConform == pret.op = "ValidateAndSign" /\ pret.ok =>
 \* validating gates never pass an invalid claims-set
 GatesHold == /\ (pret.op = "SetClaims" /\ pret.ok => Valid(insts[att]))
              /\ (pret.op = "ValidateAndSign" /\ pret.ok => Valid(insts[att]))
-\* pret is not part of the VIEW: what speaks about the last call's result is checked on every step
-EveryStepPost == [][(EmittedTokensConform /\ GatesHold)']_pvars
-PView == <<insts, att, msg, net, dirty>>
+\* TLC evaluates state invariants on states that are new under the VIEW only: the view keeps exactly what the
+\* invariants look at in the last call's result (whether a validating gate has just succeeded), and drops the rest
+PView == <<insts, att, msg, net, dirty, pret.op = "ValidateAndSign" /\ pret.ok, pret.op = "SetClaims" /\ pret.ok>>
 ====
